@@ -12,10 +12,11 @@ import (
 
 // Fee is one fees_info entry.
 type Fee struct {
-	K  string `json:"k"`  // "bps" | "fix" | "null" | "notype"
-	V  int64  `json:"v"`  // value
-	VC string `json:"vc"` // value class: "OK" | "NEG" | "FRAC" | "ALPHA" | "EMPTY" | "PLUS" | "U32MAX" | "BIG256" | "OVF"
-	To string `json:"to"` // recipient: account name | "INVALID" | "EMPTY"
+	K  string  `json:"k"`  // "bps" | "fix" | "null" | "notype"
+	V  int64   `json:"v"`  // value
+	VC string  `json:"vc"` // value class: "OK" | "NEG" | "FRAC" | "ALPHA" | "EMPTY" | "PLUS" | "U32MAX" | "BIG256" | "OVF"
+	To string  `json:"to"` // recipient: account name | "INVALID" | "EMPTY"
+	Vd []int64 `json:"vd"` // decimal digits of the value when VC = "DIGITS" (beyond TLC's integers)
 }
 
 // Act is one pre-action.
@@ -47,16 +48,17 @@ type Input struct {
 	T string `json:"t"` // "recv" | "admin" | "deposit" | "env" | "reimport" | "query" | "gendoc" | "ident" | "ackpkt" | "timeout"
 
 	// recv
-	Chan int    `json:"chan"`
-	Rcv  string `json:"rcv"`  // "ORB" | "ORB_UPPER" | account name | "INVALID" | "EMPTY"
-	Dn   string `json:"dn"`   // denom class: "RET" | "SRCNATIVE" | "OTHERCH" | "OTHERPORT" | "MULTI" | "RETRET" | "HASHED"
-	Base string `json:"base"` // base denom
-	Amt  int64  `json:"amt"`
-	AmtC string `json:"amtc"` // amount encoding class: "OK" | "PLUS" | "LEADZERO" | "SPACE" | "FRAC" | "NEG" | "EMPTY" | "EXP" | "MAX256" | "OVER256" | "BIG"
-	Mk   string `json:"mk"`   // memo kind: "NONE" | "PAYLOAD" | "RAW"
-	Fw   Fw     `json:"fw"`
-	Acts []Act  `json:"acts"`
-	Raw  string `json:"raw"` // RAW memo: literal text, or a template instruction (see rawMemo)
+	Chan int     `json:"chan"`
+	Rcv  string  `json:"rcv"`  // "ORB" | "ORB_UPPER" | account name | "INVALID" | "EMPTY"
+	Dn   string  `json:"dn"`   // denom class: "RET" | "SRCNATIVE" | "OTHERCH" | "OTHERPORT" | "MULTI" | "RETRET" | "HASHED"
+	Base string  `json:"base"` // base denom
+	Amt  int64   `json:"amt"`
+	Amtd []int64 `json:"amtd"` // decimal digits of the amount when AmtC = "DIGITS" (up to 2^256-1)
+	AmtC string  `json:"amtc"` // amount encoding class: "OK" | "PLUS" | "LEADZERO" | "SPACE" | "FRAC" | "NEG" | "EMPTY" | "EXP" | "MAX256" | "OVER256" | "BIG"
+	Mk   string  `json:"mk"`   // memo kind: "NONE" | "PAYLOAD" | "RAW"
+	Fw   Fw      `json:"fw"`
+	Acts []Act   `json:"acts"`
+	Raw  string  `json:"raw"` // RAW memo: literal text, or a template instruction (see rawMemo)
 	// instrumented mode
 	Faults []string `json:"faults"`
 
@@ -134,6 +136,9 @@ func (in *Input) normalise() {
 			if in.Acts[i].Fees[j].VC == "" {
 				in.Acts[i].Fees[j].VC = "OK"
 			}
+			if in.Acts[i].Fees[j].Vd == nil {
+				in.Acts[i].Fees[j].Vd = []int64{}
+			}
 		}
 	}
 	if in.Cps == nil {
@@ -145,6 +150,9 @@ func (in *Input) normalise() {
 	}
 	if in.Faults == nil {
 		in.Faults = []string{}
+	}
+	if in.Amtd == nil {
+		in.Amtd = []int64{}
 	}
 	if in.Ids == nil {
 		in.Ids = []IdEnt{}
@@ -244,6 +252,8 @@ func (w *World) addrOf(name string) string {
 		// mixed case is not valid bech32: it does NOT decode to the module address
 		a := w.acct["orb"].String()
 		return a[:10] + strings.ToUpper(a[10:])
+	case "AUTH_MODNAME":
+		return "gov" // the bare module name: not an address, does not denote the authority
 	case "AUTH_UPPER":
 		return strings.ToUpper(w.acct["AUTH"].String())
 	case "AUTH_SPACE":
@@ -280,8 +290,18 @@ func (w *World) bytesOf(name string) []byte {
 	return []byte(name)
 }
 
+func digitsString(d []int64) string {
+	var b strings.Builder
+	for _, x := range d {
+		b.WriteString(strconv.FormatInt(x, 10))
+	}
+	return b.String()
+}
+
 func feeValueString(f Fee) string {
 	switch f.VC {
+	case "DIGITS":
+		return digitsString(f.Vd)
 	case "NEG":
 		return "-" + strconv.FormatInt(f.V, 10)
 	case "FRAC":
@@ -464,6 +484,8 @@ func (w *World) denomOf(in *Input) string {
 func amountOf(in *Input) string {
 	n := strconv.FormatInt(in.Amt, 10)
 	switch in.AmtC {
+	case "DIGITS":
+		return digitsString(in.Amtd)
 	case "PLUS":
 		return "+" + n
 	case "LEADZERO":
